@@ -463,3 +463,34 @@ make_bonds_molecules = FunctionContract(
             ("molecules.append(mol)", "molecules = [mol]")],
 )
 CONTRACTS.append(make_bonds_molecules)
+
+
+# ------------------------------------------------------------------ MakeBonds.run_system: which parameters reach make_bonds
+def setup_mb_run(cx):
+    new_mols = cx.val('new_molecules', TSeq(MolT))
+    old_mols = cx.val('old_molecules', TSeq(MolT))
+    cx.spec_env.update(NEW_MOLS=new_mols, OLD_MOLS=old_mols)
+    an, ad, fu = cx.val('allow_name', TBool), cx.val('allow_dist', TBool), cx.val('fudge', TReal)
+    system = Obj('System', molecules=Box(TSeq(MolT), old_mols.e), force_field=Obj('ff'))
+
+    def make_bonds_(e, s, allow_name=None, allow_dist=None, fudge=None):
+        e.oblige(s is system and allow_name is an and allow_dist is ad and fudge is fu, 'make_bonds:gets-this-processor-parameters')
+        return new_mols
+    cx.spec_env['make_bonds'] = Builtin(make_bonds_, 'make_bonds')
+    cx.spec_env['LOGGER'] = Obj('LOGGER', info=Builtin(lambda e, *a, **k: None, 'info'))
+    return dict(self=Obj('MakeBonds', allow_name=an, allow_dist=ad, fudge=fu), system=system)
+
+
+mb_run_system = FunctionContract(
+    F, 'MakeBonds.run_system', 'C10', setup=setup_mb_run, spec_env=dict(MolT=MolT),
+    ensures=[
+        # a system with molecules is replaced by what make_bonds returns for it, called with the processor's own switches and fudge
+        # factor; an empty system is left alone
+        "implies(len(OLD_MOLS) > 0, len(system.molecules) == len(NEW_MOLS) and "
+        "   forall(lambda i: implies(0 <= i and i < len(NEW_MOLS), system.molecules[i] == NEW_MOLS[i])))",
+        "implies(len(OLD_MOLS) == 0, len(system.molecules) == 0)",
+    ],
+    modifies=['system.molecules'],
+    canary=[("fudge=self.fudge)", "fudge=1.2)"), ("system.molecules = mols", "pass")],
+)
+CONTRACTS.append(mb_run_system)
